@@ -303,6 +303,8 @@ class PitRun:
         tree = self.app._pit if self.front == 'v2' else self.app._int_tree
         if any(len(node.pending_list) == 0 for node in tree.itervalues()):
             self.bg.append('empty-pit-node-left-behind')
+        if hasattr(self.face, 'overwritten') and self.face.overwritten() and 'sent-buffer-overwritten-after-send' not in self.bg:
+            self.bg.append('sent-buffer-overwritten-after-send')
         p = {'now': self.tick(), 'up': bool(self.face.running),
              'out': [self.outcome(i) for i in range(len(self.tasks))],
              'npit': self.npit(), 'vnew': sorted(self.vnew), 'bg': len(self.bg),
